@@ -25,12 +25,18 @@ def jnum(value):
     """Number -> JSON form."""
     if isinstance(value, complex):
         return {"re": value.real, "im": value.imag}
+    if isinstance(value, float) and value != value:
+        return {"nf": "nan"}
+    if isinstance(value, float) and value in (float("inf"), float("-inf")):
+        return {"nf": "inf" if value > 0 else "-inf"}
     return value
 
 
 def unj(value):
     if isinstance(value, dict) and "re" in value:
         return complex(value["re"], value["im"])
+    if isinstance(value, dict) and "nf" in value:
+        return float(value["nf"])
     return value
 
 
@@ -218,8 +224,19 @@ def build(spec):
         if view == "T":
             coefs = [numpy.ascontiguousarray(c.T) for c in coefs]
         retain = spec.get("via") == "retain"
+        exps = spec["exps"]
+        if spec.get("zero_term"):
+            # an explicitly stored all-zero term of the first indeterminate (kept as under
+            # retain_coefficients=True), before or after the other terms; value unchanged
+            extra = [spec["zero_term"]["power"]] + [0] * (len(spec["names"]) - 1)
+            if extra not in [list(row) for row in exps]:
+                zero = numpy.zeros(shape if view != "T" else shape[::-1], dtype=dtype)
+                first = spec["zero_term"]["first"]
+                exps = [extra] + list(exps) if first else list(exps) + [extra]
+                coefs = [zero] + coefs if first else coefs + [zero]
+                retain = True
         poly = numpoly.polynomial_from_attributes(
-            exponents=numpy.array(spec["exps"], dtype=int).reshape(len(coefs), len(spec["names"])),
+            exponents=numpy.array(exps, dtype=int).reshape(len(coefs), len(spec["names"])),
             coefficients=coefs,
             names=tuple(spec["names"]),
             dtype=dtype,
@@ -257,7 +274,7 @@ def model(spec):
         shape = numpy.broadcast_shapes(*[p.shape for p in parts])
         out = numpy.empty((len(parts),) + tuple(shape), dtype=object)
         for i, part in enumerate(parts):
-            out[i] = numpy.broadcast_to(part, shape)
+            out[i, ...] = numpy.broadcast_to(part, shape)
         return out
     raise ValueError(kind)
 
@@ -270,6 +287,7 @@ def spec_features(spec):
             "kind": "poly", "coef": spec["kind"], "shape": tuple(spec["shape"]),
             "nterms": len(spec["exps"]), "names": tuple(spec["names"]),
             "view": spec.get("view", ""), "via": spec.get("via"),
+            "zero_term": bool(spec.get("zero_term")),
         }
     if kind == "arr":
         return {"kind": "arr:" + spec.get("layout", "C"), "coef": spec["dtype"],
